@@ -2,6 +2,7 @@ package main
 
 import (
 	"fmt"
+	"os"
 	"go/ast"
 	"go/constant"
 	"go/types"
@@ -33,6 +34,9 @@ func (w *World) verifyDecl(d *Decl) (res *UnitResult) {
 	defer func() {
 		if r := recover(); r != nil {
 			if u, ok := r.(unsupported); ok {
+				if os.Getenv("GOVC_DEBUG") != "" {
+					panic(r)
+				}
 				res.Undecided = u.msg
 				res.Obls = nil
 				return
